@@ -146,19 +146,15 @@ class BaseEstimator(object):
         else:
             parents_states = [self.state_names[parent] for parent in parents]
             # count how often each state of 'variable' occurred, conditional on parents' states
-            if weighted:
-                state_count_data = (
-                    self.data.groupby([variable] + parents, observed=True)["_weight"]
-                    .sum()
-                    .unstack(parents)
-                )
-
-            else:
-                state_count_data = (
-                    self.data.groupby([variable] + parents, observed=True)
-                    .size()
-                    .unstack(parents)
-                )
+            grouped = self.data.groupby([variable] + parents, observed=True)
+            counts = grouped["_weight"].sum() if weighted else grouped.size()
+            # Unstack the parent levels under temporary string names: pandas confuses
+            # integer level names (integer column labels) with level positions.
+            tmp_names = [f"__level_{i}" for i in range(len(parents) + 1)]
+            counts.index = counts.index.set_names(tmp_names)
+            state_count_data = counts.unstack(tmp_names[1:])
+            state_count_data.index.name = variable
+            state_count_data.columns.names = parents
 
             if not isinstance(state_count_data.columns, pd.MultiIndex):
                 state_count_data.columns = pd.MultiIndex.from_arrays(
